@@ -84,6 +84,36 @@ def world_kind(tr):
     return WORLD_KIND.get(tr['body_class'], 9)
 
 
+# What a mutation operator does to the stage outcomes BY DESIGN of the operator (independent of the code):
+# (read_ok, parse outcome | None = not reached, answer).  Pins the behaviour of reader / handler / dispatcher on
+# inputs whose class is known without looking at the implementation.
+ALWAYS_OK_TYPES = {'GetMdib', 'GetMdState', 'GetMdDescription', 'GetContextStates', 'Probe', 'TransferGet', 'GetMetadata',
+                   'SetValue', 'SetString', 'Activate', 'SetContextState', 'Subscribe'}
+READ_FAILS = {'frame:chunk_truncate', 'frame:chunk_bad_size', 'frame:chunk_negative', 'frame:chunk_no_last', 'frame:chunk_huge',
+              'frame:cl_negative', 'frame:cl_garbage', 'frame:ce_unsupported', 'frame:ce_corrupt', 'frame:ce_plain_as_gzip',
+              'frame:ce_upper'}
+PARSE_RAISES = {'bytes:truncate', 'bytes:empty', 'bytes:garbage', 'frame:cl_absent', 'frame:cl_shorter'}
+VALID_FRAMING = {'none', 'frame:valid_gzip_chunked', 'frame:expect_continue', 'frame:http10', 'frame:cl_longer', 'frame:weird_accept'}
+
+
+def design_expectation(tr):
+    """(status, kind) the provider must answer for this top-level delivery, or None when the operator does not determine it"""
+    if tr['endpoint'] != 'provider' or tr['nested'] or tr['method'] != 'POST':
+        return None
+    m = tr['mutation']
+    if m in READ_FAILS:
+        return 400, 3
+    if m in PARSE_RAISES:
+        return 500, 1
+    if m == 'path:unknown_device' or m == 'path:root_path' or m == 'path:no_slash' or m == 'path:bad_url' or m == 'path:empty_path':
+        return 404, 3
+    if m == 'path:unknown_service':
+        return 404, 1
+    if m in VALID_FRAMING and tr['label'] in ALWAYS_OK_TYPES:
+        return 200, 0
+    return None
+
+
 def world_oracle(tr):
     """the property on one delivery (None = fine)"""
     if tr['spin'] or tr['reads'] > tr['read_budget']:
@@ -236,7 +266,8 @@ def run(ctx):  # noqa: C901, PLR0912, PLR0915
             traces.append(tr)
     ctx.log(f'worlds done at {__import__("time").time() - ctx.t0:.0f}s')
     hist_type, hist_mut, hist_status, hist_stage = {}, {}, {}, {}
-    n_handler_lits = n_mw_lits = n_rejected_checked = 0
+    n_handler_lits = n_mw_lits = n_rejected_checked = n_expect = 0
+    expect_diff = []
     wl = []
     for i, tr in enumerate(traces):
         fam = (tr['mutation'] or 'setup').split(':')[0]
@@ -255,6 +286,13 @@ def run(ctx):  # noqa: C901, PLR0912, PLR0915
                                                   'path': tr['path'], 'raw_request_hex': tr.get('raw_hex')},
                       'impl_trace': {k: v for k, v in tr.items() if k not in ('cfg', 'raw_hex')},
                       'oracle': {'verdict': 'fail', 'clause': bad[0]}})
+        want = design_expectation(tr)
+        if want is not None:
+            n_expect += 1
+            got = (tr['status'], world_kind(tr))
+            if got != want:
+                expect_diff.append({'request_type': tr['label'], 'mutation': tr['mutation'], 'path': tr['path'], 'expected (status, kind)': want,
+                                    'got': got, 'stages': tr['frame'], 'read_ok': tr['read_ok'], 'world': tr['cfg'], 'raw_request_hex': tr.get('raw_hex')})
         # replay the observed outcomes on the model
         if len(tr['entered']) != 1 or tr['status'] is None:
             continue
@@ -297,12 +335,18 @@ def run(ctx):  # noqa: C901, PLR0912, PLR0915
         ctx.broken('correspondence', name, {'disagreements': len(js), 'first': {'case': case, 'impl': tr, 'model_input': lits[j][0],
                                                                                  'impl_as_result': lits[j][1],
                                                                                  'model': ctx.coq_eval(HEADER, f'run_dispatch {lits[j][0]}')[-200:]}})
+    if expect_diff:
+        ctx.broken('correspondence', 'world-expectation', {
+            'why': 'the answer differs from what the mutation operator determines by design (valid request -> 200 + response, damaged '
+                   'framing -> 400, unparsable XML -> 500 + fault, unknown device / service -> 404)',
+            'disagreements': len(expect_diff), 'kinds': sorted({d['mutation'] + '/' + d['request_type'] for d in expect_diff})[:15],
+            'first': expect_diff[0]})
     prov_top = [t for t in traces if t['endpoint'] == 'provider' and not t['nested']]
     top = [t for t in traces if not t['nested']]
     ctx.count('world', len(top), [(t['world'], k) for k, t in enumerate(traces) if not t['nested']],
               nested_notifications_delivered_to_consumer=len(traces) - len(top),
               request_types=hist_type, mutations=hist_mut, status_and_body=hist_status, observed_stage_outcomes=hist_stage,
-              replayed_on_model={'handler': n_handler_lits, 'middleware': n_mw_lits},
+              replayed_on_model={'handler': n_handler_lits, 'middleware': n_mw_lits}, compared_with_design_expectation=n_expect,
               rejected_with_snapshot=n_rejected_checked, provider_requests=len(prov_top),
               accepted_share=round(sum(1 for t in prov_top if t['status'] == 200) / max(1, len(prov_top)), 3),
               worlds=meta)
